@@ -680,6 +680,26 @@ def dao_init_in_place(prog: Program) -> RuleResult:
     return r
 
 
+def dao_alt_ancestor(prog: Program) -> RuleResult:
+    """Writer and reader look for the alternatively mapped ancestor of a DAO class in the same place. to_dao scans the MRO (a grandparent may be
+    the alternatively mapped one); a reader that only looks at the immediate base class takes nothing from the mapping two levels up, and the
+    constructor arguments the mapping renames come back as their defaults."""
+    r = RuleResult("DAO-ALT-ANCESTOR", "writer and reader find the alternatively mapped ancestor along the whole MRO", floor=2)
+    dao = prog.cls(DAO + ".DataAccessObject")
+    sides = {"writer": prog.lookup(dao.qual, "to_dao"), "reader": prog.lookup(dao.qual, "_build_base_kwargs_for_alternative_parent")}
+    how = {}
+    for side, f in sides.items():
+        if f is None:
+            raise AnalysisError(f"DAO-ALT-ANCESTOR: the {side} side vanished")
+        attrs = {x.attr for x in walk_local(f.node) if isinstance(x, ast.Attribute)}
+        how[side] = "mro" if "__mro__" in attrs or any(call_name(c) == "mro" for c in calls_in(f.node)) else "bases" if "__bases__" in attrs or "__base__" in attrs else "?"
+    for side, f in sides.items():
+        r.check(how[side] == "mro" or how["writer"] != "mro", f"from_dao/to_dao#{side}-scans-the-mro", site(f), how[side], "the alternatively mapped ancestor is looked for along the MRO",
+                f"the {side} looks at {('the immediate base class only' if how[side] == 'bases' else 'something else than the MRO')} while the writer scans the MRO: for SportsCar(Car(Vehicle)) with Vehicle "
+                "alternatively mapped by a mapping that renames a field, the value stored through the mapping is not handed to the constructor and the default comes back")
+    return r
+
+
 def _opt_truth(prog):
     # the conversion states are passed down optionally; `state or State()` must only ever replace None
     from .opttruth import opt_truth
@@ -702,4 +722,4 @@ def _exact_dao(prog):
 
 
 def run(prog: Program, tier: str) -> List[RuleResult]:
-    return [idkey(prog), dao_order(prog), dao_direction(prog), dao_collect(prog), dao_window(prog), dao_value_truth(prog), dao_fresh(prog), _opt_truth(prog), _shared_default(prog), dao_args(prog), dao_kwargs(prog), dao_partition(prog), _exact_dao(prog), dao_container(prog), dao_init_in_place(prog)]
+    return [idkey(prog), dao_order(prog), dao_direction(prog), dao_collect(prog), dao_window(prog), dao_value_truth(prog), dao_fresh(prog), _opt_truth(prog), _shared_default(prog), dao_args(prog), dao_kwargs(prog), dao_partition(prog), _exact_dao(prog), dao_container(prog), dao_init_in_place(prog), dao_alt_ancestor(prog)]
